@@ -66,6 +66,9 @@ struct ScriptedRng {
 };
 inline Probe*& currentProbe() { static Probe* p = nullptr; return p; }
 
+// dynamic allocations (global operator new is replaced in main.inl)
+inline long& allocCount() { static long n = 0; return n; }
+
 // assertion / HFSM2_BREAK hits (routed here by the HFSM2_VERIF hook)
 struct BreakLog { std::vector<std::pair<std::string, int>> hits; };
 inline BreakLog& breakLog() { static BreakLog b; return b; }
